@@ -415,3 +415,18 @@ package mapr
 //@   ensures [order-key] implies(isnil(result1) && sc.FieldStorage == query.OrderBy && (sc.Operation == Count || sc.Operation == Sum || sc.Operation == Min || sc.Operation == Max || sc.Operation == Len), result.orderBy == ite(has(set.FValues, sc.FieldStorage), set.FValues[sc.FieldStorage], 0))
 //@   ensures [avg-is-sum-over-samples] implies(isnil(result1) && sc.FieldStorage == query.OrderBy && sc.Operation == Avg && set.Samples != 0, result.orderBy * set.Samples == ite(has(set.FValues, sc.FieldStorage), set.FValues[sc.FieldStorage], 0))
 //@   ensures [order-key-kept] implies(sc.FieldStorage != query.OrderBy, result.orderBy == old(result.orderBy))
+
+// Row order: "order by" puts the larger order key first, "rorder by" the smaller
+// (sort.SliceStable with the comparator of that direction keeps ties in place).
+//@ func (*GroupSet).resultOrderBy
+//@   requires [query] query != nil
+//@   assigns *rows
+//@   at-call sort.SliceStable [comparator-of-the-direction] query.OrderBy != "" && implies(query.ReverseOrder, funcIs(arg1, "resultOrderBy$1")) && implies(!query.ReverseOrder, funcIs(arg1, "resultOrderBy$2"))
+//@ func (*GroupSet).resultOrderBy$1
+//@   assigns nothing
+//@   requires [in-range] 0 <= i && i < len(rows) && 0 <= j && j < len(rows)
+//@   ensures [smaller-first] result == (rows[i].orderBy < rows[j].orderBy)
+//@ func (*GroupSet).resultOrderBy$2
+//@   assigns nothing
+//@   requires [in-range] 0 <= i && i < len(rows) && 0 <= j && j < len(rows)
+//@   ensures [larger-first] result == (rows[i].orderBy > rows[j].orderBy)
